@@ -1,6 +1,6 @@
 from os.path import getmtime
 
-from .util import cached_property, Source
+from .util import cached_property, Source, cycle_guard
 from .nast import extract_scope
 from .compat import iteritems
 from .name import RuntimeName, Object
@@ -46,6 +46,7 @@ class SourceModule(Object):
     def _attrs(self):
         # type: () -> dict[str, Object | Name]
         if self._analysing:
+            cycle_guard.fired += 1
             return {}  # a star-import cycle: this module's names are being collected
         return self.scope.exported_names  # type: ignore[return-value]
 
